@@ -26,6 +26,9 @@ pub fn install_quiet_panic_hook() {
                 format!("{}", f)
             })
             .unwrap_or_default();
+        if std::env::var_os("VERIF_PANIC_TRACE").is_some() {
+            eprintln!("panic: {} @{:?}", msg, info.location());
+        }
         LAST_PANIC.with(|p| *p.borrow_mut() = Some(format!("{} @{}", msg, loc)));
     }));
 }
@@ -35,9 +38,16 @@ pub fn catch<T>(f: impl FnOnce() -> T) -> Result<T, String> {
     LAST_PANIC.with(|p| *p.borrow_mut() = None);
     match panic::catch_unwind(AssertUnwindSafe(f)) {
         Ok(v) => Ok(v),
-        Err(_) => Err(LAST_PANIC
-            .with(|p| p.borrow_mut().take())
-            .unwrap_or_else(|| "<panic>".to_string())),
+        Err(payload) => Err(LAST_PANIC.with(|p| p.borrow_mut().take()).unwrap_or_else(|| {
+            // the panic happened on another thread (a worker of a parallel iterator): take the message from the payload
+            if let Some(s) = payload.downcast_ref::<&str>() {
+                s.to_string()
+            } else if let Some(s) = payload.downcast_ref::<String>() {
+                s.clone()
+            } else {
+                "<panic>".to_string()
+            }
+        })),
     }
 }
 
